@@ -38,7 +38,7 @@ GUARD = "BTCDEB_VERIF"
 VARIANTS = {
     "plain": ["-O1", "-g"],
     "asan": ["-O1", "-g", "-fsanitize=address,undefined", "-fno-sanitize-recover=all", "-fno-omit-frame-pointer"],
-    "cov": ["-O0", "-g", "--coverage"],
+    "cov": ["-O0", "-g", "--coverage", "-DVERIF_COV"],
 }
 
 
